@@ -180,7 +180,11 @@ func comboString(keys []string, get func(string) []string) string {
 		if vs == nil {
 			parts = append(parts, k+"=<unset>")
 		} else {
-			parts = append(parts, fmt.Sprintf("%s=[%d]%s", k, len(vs), strings.Join(vs, "|")))
+			lv := make([]string, len(vs))
+			for i, v := range vs {
+				lv[i] = fmt.Sprintf("%d:%s", len(v), v) // length-prefixed: injective whatever the values contain
+			}
+			parts = append(parts, fmt.Sprintf("%s=[%d]%s", k, len(vs), strings.Join(lv, "|")))
 		}
 	}
 	return strings.Join(parts, ";")
@@ -734,6 +738,40 @@ func runScenario(t *testing.T, sc *Scenario, tr int, out *bufio.Writer) {
 		<-ready
 		synctest.Wait()
 	}
+	callRacing := func(c string, barrier chan struct{}) {
+		cs, ok := sc.Callers[c]
+		if !ok || r.started[c] || r.shutCall {
+			return
+		}
+		r.started[c] = true
+		data, items := build(sc.Signal, c, cs.Shape)
+		its := make([]any, 0, len(items))
+		for _, it := range items {
+			its = append(its, []any{ownerOf(it.ID), it.ID, it.Dig})
+		}
+		combo := comboString(r.keys, func(k string) []string { return mdGet(cs.MD, k) })
+		wg.Add(1)
+		r.mu.Lock()
+		r.emit("Call", map[string]any{"c": c, "a": len(items), "x": cs.Ctx, "s": combo, "items": its})
+		r.mu.Unlock()
+		registered := make(chan struct{})
+		go func() {
+			defer wg.Done()
+			r.mu.Lock()
+			r.gidProc[curGID()] = c
+			r.mu.Unlock()
+			close(registered)
+			<-barrier
+			err := consume(ctxs[cs.Ctx], data)
+			kind, wraps, perm := classify(err)
+			r.mu.Lock()
+			r.returned[c] = true
+			r.emit("Return", map[string]any{"c": c, "k": kind, "l": wraps, "a": b2i(perm), "x": cs.Ctx,
+				"b": b2i(ctxs[cs.Ctx].Err() != nil)})
+			r.mu.Unlock()
+		}()
+		<-registered
+	}
 	shutdown := func() {
 		if r.shutCall {
 			return
@@ -862,6 +900,29 @@ func runScenario(t *testing.T, sc *Scenario, tr int, out *bufio.Writer) {
 			r.endExport(k, res)
 		case "shutdown":
 			shutdown()
+		case "race":
+			// start (or release) the listed callers at the same instant and let them run through
+			// admission and enqueue without parking, so that they really race for locks and slots
+			var gates []*gate
+			startTogether := make(chan struct{})
+			for i := 1; i < len(st); i++ {
+				c := arg(i)
+				r.mu.Lock()
+				r.stepped[c] += 4
+				if g := r.parked[c]; g != nil {
+					r.unparkLocked(c)
+					gates = append(gates, g)
+				}
+				r.mu.Unlock()
+				if !r.started[c] {
+					callRacing(c, startTogether)
+				}
+			}
+			for _, g := range gates {
+				close(g.ch)
+			}
+			close(startTogether)
+			synctest.Wait()
 		case "releaseall":
 			r.releaseAll()
 		case "free":
